@@ -763,8 +763,8 @@ class Header:
             "filename": filename,
             "data_type": "filterbank",
             "nchans": subint_hdr.nchans,
-            "foff": subint_hdr.freqs.foff,
-            "fch1": subint_hdr.freqs.fch1,
+            "foff": float(subint_hdr.freqs.foff.value),
+            "fch1": float(subint_hdr.freqs.fch1.value),
             "nbits": subint_hdr.nbits,
             "tsamp": subint_hdr.tsamp,
             "tstart": primary_hdr.tstart.mjd,
